@@ -337,6 +337,16 @@ class MonitoredFocusList(MonitoredList[_T], typing.Generic[_T]):
             return focus
 
         focus = self._focus
+        if step < 0:
+            # same positions visited in ascending order
+            if num_removed:
+                start, stop, step = start + (num_removed - 1) * step, start + 1, -step
+            else:
+                stop, step = start, -step
+        elif stop < start:
+            # empty slice: nothing is removed, new items are inserted at start
+            stop = start
+
         if step == 1:
             if start + num_new_items <= focus < stop:
                 focus = stop
